@@ -31,6 +31,7 @@ type Cfg struct {
 	Invalid     string    `json:"invalid,omitempty"`     // invalid-configuration run: Start() must refuse
 	Rig         string    `json:"rig,omitempty"`         // how the deck order was chosen (informational)
 	ViaBackend  bool      `json:"via_backend,omitempty"` // the hand is created through table.NativeBackend.CreateGame
+	BurnCount   int       `json:"burn_count"`            // option value (the engine burns one card per street whatever it says)
 	Twin        bool      `json:"twin,omitempty"`        // C07 determinism clause: twin execution at the end of the run (twin.go)
 }
 
@@ -44,6 +45,7 @@ func (c *Cfg) Options() *pokerface.GameOptions {
 	o.Ante = c.Ante
 	o.Blind = pokerface.BlindSetting{Dealer: c.DealerBlind, SB: c.SB, BB: c.BB}
 	o.Limit = c.Limit
+	o.BurnCount = c.BurnCount
 	o.HoleCardsCount = c.Hole
 	o.RequiredHoleCardsCount = c.Req
 	if c.Invalid != "no-deck" {
@@ -230,11 +232,12 @@ func DrawCfg(r *sim.RNG) *Cfg {
 	c.Deck, c.Rig = drawDeck(r, c)
 	c.ViaBackend = r.Chance(0.25)
 	c.Twin = r.Chance(0.12)
+	c.BurnCount = []int{1, 1, 1, 1, 1, 1, 1, 0, 0, 2}[r.Intn(10)]
 	return c
 }
 
 func drawInvalid(r *sim.RNG) *Cfg {
-	c := &Cfg{BB: 10, SB: 5, Limit: "no", Hole: 2}
+	c := &Cfg{BB: 10, SB: 5, Limit: "no", Hole: 2, BurnCount: 1}
 	n := 2 + r.Intn(4)
 	c.Seats = make([]SeatCfg, n)
 	for i := range c.Seats {
